@@ -12,8 +12,13 @@ struct Recursive(u32);
 impl std::fmt::Display for Recursive {
     fn fmt(&self, f: &mut std::fmt::Formatter) -> std::fmt::Result {
         // a log call from within a Display implementation
-        let inner = format!("inner{}", self.0);
-        LOGGER.get().unwrap().log(&Record::builder().level(log::Level::Info).target("t").args(format_args!("{}", inner)).build());
+        if self.0 > 1 {
+            // … whose argument logs again, one level further down
+            LOGGER.get().unwrap().log(&Record::builder().level(log::Level::Info).target("t").args(format_args!("inner{} {}", self.0, Recursive(self.0 - 1))).build());
+        } else {
+            let inner = format!("inner{}", self.0);
+            LOGGER.get().unwrap().log(&Record::builder().level(log::Level::Info).target("t").args(format_args!("{}", inner)).build());
+        }
         write!(f, "x{}", self.0)
     }
 }
@@ -34,19 +39,20 @@ pub fn child_recurse(args: &[String]) {
     };
     let (boxed, handle) = l.build().unwrap();
     let _ = LOGGER.set(boxed);
-    LOGGER.get().unwrap().log(&Record::builder().level(log::Level::Info).target("t").args(format_args!("outer {}", Recursive(1))).build());
+    let depth: u32 = args.get(3).and_then(|d| d.parse().ok()).unwrap_or(1);
+    LOGGER.get().unwrap().log(&Record::builder().level(log::Level::Info).target("t").args(format_args!("outer {}", Recursive(depth))).build());
     LOGGER.get().unwrap().log(&Record::builder().level(log::Level::Info).target("t").args(format_args!("plain")).build());
     handle.shutdown();
     std::process::exit(0);
 }
 
 /// runs the child with a watchdog; returns (finished, captured stream or file content)
-pub fn run_recurse(ctx_work: &std::path::Path, mode: &str, target: &str, secs: u64) -> (bool, Vec<u8>) {
+pub fn run_recurse(ctx_work: &std::path::Path, mode: &str, target: &str, secs: u64, depth: u32) -> (bool, Vec<u8>) {
     let dir = ctx_work.join(format!("recurse-{}", std::process::id()));
     let _ = std::fs::remove_dir_all(&dir);
     std::fs::create_dir_all(&dir).unwrap();
     let exe = std::env::current_exe().unwrap();
-    let mut child = std::process::Command::new(exe).arg("child").arg("recurse").arg(mode).arg(target).arg(&dir)
+    let mut child = std::process::Command::new(exe).arg("child").arg("recurse").arg(mode).arg(target).arg(&dir).arg(depth.to_string())
         .stdout(std::process::Stdio::piped()).stderr(std::process::Stdio::piped()).spawn().expect("child");
     let t0 = std::time::Instant::now();
     let mut finished = false;
@@ -141,6 +147,9 @@ pub fn gen_c10(tier: &str, seed: u64) -> Vec<Vec<String>> {
     // (c) recursive logging from a Display implementation, in a child with a watchdog
     for (i, (mode, target)) in [("direct", "file"), ("buf:100", "file"), ("direct", "out"), ("direct", "err"), ("async:5:100", "file"), ("async:5:100", "out")].iter().enumerate() {
         cases.push(vec![format!("CASE std C10 rec{i}"), format!("RECURSE {mode} {target}"), "END".into()]);
+        for depth in [2u32, 3, 5] {
+            cases.push(vec![format!("CASE std C10 rec{i}d{depth}"), format!("RECURSE {mode} {target} {depth}"), "END".into()]);
+        }
     }
     cases
 }
